@@ -438,7 +438,14 @@ fn lin_strategy(t: usize, lo: i64, hi: i64, unit: i64, name: &str) -> impl Strat
     _ => i64::MAX,
   });
   let o = prop_oneof![6 => lo..=hi, 2 => lo..=(lo + 40.min(hi - lo)), 2 => (hi - 40.min(hi - lo))..=hi];
-  let step = move || prop_oneof![4 => -30i64..=30, 3 => -400i64..=400, 2 => -(span.min(2_000_000))..=span.min(2_000_000), 1 => Just(0i64)];
+  // a few much longer steps for the slow steppers (a shortcut for big n is where a stepping bug would hide)
+  let far = ((hi - lo) / unit).min(match name {
+    "LunarMonth" => 30_000,
+    "SolarWeek" => 120_000,
+    "LunarWeek" => 6_000,
+    _ => 2_000_000,
+  });
+  let step = move || prop_oneof![40 => -30i64..=30, 30 => -400i64..=400, 20 => -(span.min(2_000_000))..=span.min(2_000_000), 10 => Just(0i64), 3 => -far..=far];
   (o, step(), step()).prop_map(move |(o, a, b)| {
     // keep the case inside the range by construction: clip a and b
     let maxf = (hi - o) / unit;
@@ -488,16 +495,42 @@ impl Prop for C11 {
           }
           // names: every listed name, and constructed non-names
           for nm in &cy.names {
-            run_case(env, out, "name", &Case { a: vec![ti as i64], f: vec![], s: vec![nm.to_string()] }, &ev);
-            run_case(env, out, "name", &Case { a: vec![ti as i64], f: vec![], s: vec![format!("{}x", nm)] }, &ev);
+            run_case(env, out, "name", &Case { a: vec![ti as i64], f: vec![], s: vec![nm.to_string()], pre: vec![] }, &ev);
+            run_case(env, out, "name", &Case { a: vec![ti as i64], f: vec![], s: vec![format!("{}x", nm)], pre: vec![] }, &ev);
+          }
+          // recombinations of the type's own name fragments (prefix of one name + suffix of another): they look like names
+          // and must be refused unless they are listed (e.g. a stem with a branch of the other parity)
+          {
+            let names: Vec<Vec<char>> = cy.names.iter().map(|n| n.chars().collect()).collect();
+            let mut seen: std::collections::BTreeSet<String> = std::collections::BTreeSet::new();
+            let cap = env.tier.pick(400usize, 6000);
+            'outer: for (ia, a) in names.iter().enumerate() {
+              for (ib, b) in names.iter().enumerate() {
+                if ia == ib || a.len() < 2 || b.len() < 2 {
+                  continue;
+                }
+                for cut_a in 1..a.len() {
+                  for cut_b in 1..b.len() {
+                    let cand: String = a[..cut_a].iter().chain(b[cut_b..].iter()).collect();
+                    if seen.insert(cand.clone()) {
+                      out.class("recombined_name_candidates");
+                      run_case(env, out, "name", &Case { a: vec![ti as i64], f: vec![], s: vec![cand], pre: vec![] }, &ev);
+                      if seen.len() >= cap {
+                        break 'outer;
+                      }
+                    }
+                  }
+                }
+              }
+            }
           }
           for other in ["", " ", "甲", "子", "建", "角", "一", "初伏", "日", "吉", "东", "木", "长生", "鼠", "甲子", "立春", "x"] {
-            run_case(env, out, "name", &Case { a: vec![ti as i64], f: vec![], s: vec![other.to_string()] }, &ev);
+            run_case(env, out, "name", &Case { a: vec![ti as i64], f: vec![], s: vec![other.to_string()], pre: vec![] }, &ev);
           }
           let per: u32 = env.tier.pick(400, 20_000);
           prop_run(env, out, "cyc", per, ti as u64, (0..size, prop_oneof![1 => -(1i64 << 40)..(1i64 << 40), 1 => -5000i64..5000]).prop_map(move |(i, n)| Case::ints(&[ti as i64, i, n])), &ev);
           prop_run(env, out, "cyc_laws", per, 1000 + ti as u64, (0..size, -100_000i64..100_000, -100_000i64..100_000).prop_map(move |(i, a, b)| Case::ints(&[ti as i64, i, a, b])), &ev);
-          prop_run(env, out, "name", per / 4, 2000 + ti as u64, "\\PC{0,6}".prop_map(move |s| Case { a: vec![ti as i64], f: vec![], s: vec![s] }), &ev);
+          prop_run(env, out, "name", per / 4, 2000 + ti as u64, "\\PC{0,6}".prop_map(move |s| Case { a: vec![ti as i64], f: vec![], s: vec![s], pre: vec![] }), &ev);
         }
         out.set_exhaustive("cyc", false);
         out.set_exhaustive("wrap", true);
